@@ -8,7 +8,6 @@ META = {
         "Not decided here: argument checks implemented in assembly direct APIs.",
    technique="CBMC DFCC function contracts (requires/ensures/assigns) enforced on the real C code; ghost spec verdict; native counterexample replay",
    design="DESIGN.md §3 C12"),
-}
  "C06": dict(
    text="Deductive, all configurations at once (no enumeration of the ~22k cells): on the real per-variant translation units, for every descriptor the real "
         "parameter check accepts, the function-pointer tables (job API index and burst-API suite id) reach a stage dispatcher whose precondition - called with the "
